@@ -309,6 +309,66 @@ def _comes_from_queue_get(f: FuncInfo, n, idx: ast.expr, queue_attrs: set[str]) 
 
 
 def _bootstrap_helper(ctx: Context) -> None:
+    """Semantic reading first (small-scope abstract evaluation over line-ups of sampler classes), the syntactic reading of the two branches as a fallback."""
+    try:
+        _bootstrap_helper_semantic(ctx)
+    except AnalysisError as exc:
+        ctx.notes.setdefault("alternative_rule_undecided", []).append(f"C09/_bootstrap_helper_semantic: {exc}")
+        _bootstrap_helper_syntactic(ctx)
+
+
+def _bootstrap_helper_semantic(ctx: Context) -> None:
+    """For every line-up of up to 3 samplers over the classes {Halton, A, B}: the helper returns (sequence, index) with sequence[index] a HaltonSampler;
+    when a HaltonSampler is supplied the sequence is exactly the supplied one, otherwise the supplied one plus one new HaltonSampler."""
+    import itertools
+
+    from ..absint import Evaluator, Licence, Obj
+    prog = ctx.prog
+    h = ctx.func(f"{RL}._add_or_get_bootstrap_sampler")
+    param = h.bound_params[0] if h.bound_params else h.params[-1]
+    rows = 0
+    bad: dict[str, str] = {}
+
+    def cls_of(x) -> str | None:
+        return getattr(x, "cls", None)
+
+    for k in (1, 2, 3):
+        for lu in itertools.product(("HaltonSampler", "SamplerA", "SamplerB"), repeat=k):
+            for container in (list, tuple):
+                objs = container(Obj(c, {}) for c in lu)
+                try:
+                    out = Evaluator(prog, h).run({param: objs})
+                except Licence as exc:
+                    raise AnalysisError(f"licence check failed for _add_or_get_bootstrap_sampler: {exc}") from exc
+                rows += 1
+                label = f"line-up {list(lu)}"
+                if out.kind != "return" or not (isinstance(out.value, tuple) and len(out.value) == 2):
+                    bad.setdefault("return-shape", f"{label}: {out.brief()[:80]} is not a (sequence, index) pair")
+                    continue
+                seq, idx = out.value
+                if not isinstance(seq, (list, tuple)) or isinstance(idx, bool) or not isinstance(idx, int):
+                    raise AnalysisError(f"_add_or_get_bootstrap_sampler returns abstract values the evaluator cannot read on {label}: {out.brief()[:80]}")
+                if not 0 <= idx < len(seq) or cls_of(seq[idx]) != "HaltonSampler":
+                    bad.setdefault("index-not-halton", f"{label}: returned index {idx} does not hold a HaltonSampler in {[cls_of(x) for x in seq]}")
+                supplied = [x for x in seq if any(x is o for o in objs)]
+                added = [x for x in seq if not any(x is o for o in objs)]
+                if [id(x) for x in supplied] != [id(o) for o in objs]:
+                    bad.setdefault("supplied-changed", f"{label}: the supplied samplers are not kept, in order, in the returned sequence {[cls_of(x) for x in seq]}")
+                if "HaltonSampler" in lu:
+                    if added:
+                        bad.setdefault("present-but-added", f"{label}: a HaltonSampler is supplied, yet the helper adds {[cls_of(x) for x in added]} - a sampler outside the supplied set is scheduled "
+                                       "(e.g. a truthiness test on the position: position 0 reads as 'absent')")
+                elif [cls_of(x) for x in added] != ["HaltonSampler"]:
+                    bad.setdefault("absent-not-added", f"{label}: no HaltonSampler supplied and the helper adds {[cls_of(x) for x in added]} instead of exactly one HaltonSampler")
+    for key, msg in bad.items():
+        ctx.fail("R2.helper", f"RLScheduler._add_or_get_bootstrap_sampler:{key}", msg, h, h.node)
+    if not bad:
+        ctx.ok("R2.helper", "RLScheduler._add_or_get_bootstrap_sampler:semantic", f"{rows} abstract evaluations (line-ups of 1-3 samplers over 3 classes, list and tuple): "
+               "the returned index holds a HaltonSampler, supplied samplers are kept in order, one HaltonSampler is added iff none was supplied")
+    ctx.tables["C09.R2.bootstrap_helper"] = {"rows": rows, "exhaustive": True, "scope": "line-ups of 1-3 samplers over {HaltonSampler, SamplerA, SamplerB}, as list and as tuple"}
+
+
+def _bootstrap_helper_syntactic(ctx: Context) -> None:
     """Both branches return (sequence, index) with sequence[index] a HaltonSampler."""
     prog = ctx.prog
     h = ctx.func(f"{RL}._add_or_get_bootstrap_sampler")
